@@ -71,6 +71,7 @@ def size_of(t):
 class Cap:
     ev: int
     snap: Optional[str] = None      # name of the branch variable snapshotted
+    silent: bool = False            # block without a marker statement: `{ expr }` (the operand's own evaluation is the event)
     pre: str = ''                   # extra statements (nested invocation in a capture)
     pre_ref: str = ''
 
@@ -86,6 +87,8 @@ class Operand:
             return self.expr
         c = self.cap
         mark = 'w::snap(%d, &%s);' % (c.ev, c.snap) if c.snap else 'w::cap(%d);' % c.ev
+        if c.silent:
+            return '{ %s }' % self.expr
         return '{ %s%s %s }' % (c.pre, mark, self.expr)
 
     def ref_text(self):
@@ -103,6 +106,8 @@ class Operand:
         c = self.cap
         mark = 'w::snap(%d, &%s);' % (c.ev, c.snap) if c.snap else 'w::cap(%d);' % c.ev
         pre_ref = c.pre_ref if isinstance(c.pre_ref, str) else 'let _n = %s; ' % ref_expr(c.pre_ref)
+        if c.silent:
+            return '{ %s }' % self.ref_text()
         return '{ %s%s %s }' % (pre_ref, mark, self.ref_text())
 
     def ref_src(self):
@@ -143,6 +148,7 @@ class Handler:
     body_fn: str                     # w::h / w::h_o / w::h_r / w::ah / w::ah_r
     pre: str = ''                    # nested invocation evaluated inside the handler body (macro form)
     pre_ref: str = ''
+    early_return: bool = False       # closure body leaves through `return`
     path_form: bool = False          # handler written as a multi-segment function path: `map => w::hf2::<ev, _, _>`
     def_ev: Optional[int] = None     # handler written as a block `{ w::cap(ev); |..| .. }`: the handler EXPRESSION is evaluated once, up front
 
@@ -283,6 +289,13 @@ def new_cap(ctx):
     return c
 
 
+def silent_cap(ctx):
+    """a block capture without statements: `{ w::init::<T>(ev) }` — hoisted like any block; its evaluation is the init event"""
+    e = ctx.next_ev
+    ctx.next_ev += 1
+    return Cap(e, silent=True)
+
+
 def value_operand(ctx, ty, failable=None):
     """`w::init::<T>(ev)` as an operand value (or, zip, chain, fold seed, unwrap_or ...)."""
     if failable is None:
@@ -290,7 +303,7 @@ def value_operand(ctx, ty, failable=None):
     e = ctx.ev('Init', failable)
     expr = 'w::init::<%s>(%d)' % (rs(ty), e)
     if ctx.p.get('captures', 0.15) > 0 and not ctx.in_capture and ctx.multi_call == 0 and ctx.no_caps == 0 and ctx.chance(ctx.p.get('captures', 0.15)):
-        return Operand(expr, cap=new_cap(ctx))
+        return Operand(expr, cap=(silent_cap(ctx) if ctx.chance(0.3) else new_cap(ctx)))
     return Operand(expr)
 
 
@@ -450,6 +463,7 @@ def sync_cands(ctx, t, depth, tail, inner_ref=False):
                 c.append((w('inspect', 1.5), lambda: (Act('??', 'method', 'inspect', [cb(ctx, 'ins', [T], UNIT, byref=True, tf=T)]), t)))
             c.append((w('collect', 3), lambda: (raw('=>[]', 'Vec<_>', '.collect::<Vec<_>>()'), Vec(T))))
             c.append((w('collect', 0.7), lambda: (raw('=>[]', rs(Vec(T)), '.collect::<%s>()' % rs(Vec(T))), Vec(T))))
+            c.append((w('collect', 0.8), lambda: ([raw('=>[]', '', '.collect()'), pin_act(Vec(T))], Vec(T))))
             c.append((w('find_map', 2.5), lambda: (Act('?|>@', 'method', 'find_map', [cb(ctx, 'fm', [T], Opt(T), tf=T)]), Opt(T)), 'mutself'))
             c.append((w('find', 2.5), lambda: (Act('?@', 'method', 'find', [cb(ctx, 'p', [T], BOOL, byref=True, tf=T)]), Opt(T)), 'mutself'))
             c.append((w('partition', 2), lambda: partition(ctx, T)))
@@ -1125,7 +1139,7 @@ def initial_operand(ctx, inv, t0):
     e = ctx.ev('Init', t0[0] in ('Opt', 'Res'))
     expr = 'w::init::<%s>(%d)' % (rs(t0), e)
     if ctx.p.get('captures', 0.15) > 0 and ctx.chance(ctx.p.get('captures', 0.15)):
-        return Operand(expr, cap=new_cap(ctx))
+        return Operand(expr, cap=(silent_cap(ctx) if ctx.chance(0.35) else new_cap(ctx)))
     return Operand(expr)
 
 
@@ -1217,6 +1231,8 @@ def gen_handler(ctx, inv, n_branches):
     if n_branches <= 5 and ctx.chance(p.get('handler_path', 0.25)):
         h.path_form = True
         return h
+    if ctx.chance(p.get('handler_return', 0.2)):
+        h.early_return = True
     if ctx.chance(p.get('handler_block', 0.3)):
         # the handler expression itself is user code: evaluated exactly once, before step 0, also when a step fails
         de = ctx.next_ev
@@ -1389,6 +1405,8 @@ def handler_macro(inv, h):
     if h.path_form:
         return '%s => %s' % (h.kind, path_handler(h, n))
     clos = '|%s| { %s%s(%d, &[%s]) }' % (params, h.pre, h.body_fn, h.ev, args)
+    if h.early_return:
+        clos = '|%s| { %sreturn %s(%d, &[%s]); }' % (params, h.pre, h.body_fn, h.ev, args)
     if h.def_ev is not None:
         return '%s => { w::cap(%d); %s }' % (h.kind, h.def_ev, clos)
     return '%s => %s' % (h.kind, clos)
@@ -1968,6 +1986,22 @@ def slice_programs(slice_name, tier, master_seed, base_id):
                 p = dict(prof)
                 p['depth_profile'] = (lambda d: (lambda rng, nb: list(d)))(dp)
                 add(p, fam, 'sk-%s' % (dp,))
+    if slice_name in ('steps', 'try'):
+        # a single multi-step branch without a handler: nothing to join or transpose, but every step is still a step
+        # (the later step has a block capture, observable whatever the value it would be applied to)
+        for fam in fams:
+            for dp in [(2,), (3,), (4,)]:
+                p = dict(prof)
+                p['depth_profile'] = (lambda d: (lambda rng, nb: list(d)))(dp)
+                p['branches'] = (1, 1)
+                p['handler'] = 0.0
+                p['captures'] = 0.7
+                p['nest'] = 0.0
+
+                def req1(text):
+                    j = text.find('~')
+                    return j >= 0 and ('{ w::cap(' in text[j:] or '{ w::snap(' in text[j:])
+                add(p, fam, 'sk-single-%s' % (dp,), require=req1)
     if slice_name == 'steps':
         # named branches (`let` / `let mut`) on equal-depth and on ragged profiles, with and without a handler
         for fam in fams:
